@@ -38,6 +38,13 @@ def is_tld_shape(tu):
             elif e[0] == 'loop' and e[1].endswith(':backedge'):
                 if seg is not None and not any(x[0] == 'call' and x[1] in cmpf for x in seg):
                     conds = [x for x in seg if x[0] == 'cond' and not re.fullmatch(r".+->domain", x[1])]
+                    # length filters: a row whose length cannot equal the label's may be passed over unseen
+                    lf = [(x, _len_filter(x[1], start, end)) for x in conds]
+                    if any(f is not None and _holds(0, f[0], f[1]) != x[2] for x, f in lf):
+                        seg = None; continue             # this iteration is only taken when the lengths differ: nothing to compare
+                    conds = [x for x, f in lf if f is None]
+                    if not conds and lf:
+                        why.append(f'a row is passed over on the length test(s) {[x[1] for x, f in lf]} although its length can equal the label\'s'); seg = None; continue
                     direct = [x for x in conds if re.fullmatch(r"\((?:\*?[^()]*->domain(?:\[\d+\])?|\*" + re.escape(start) + r"|" + re.escape(start) + r"\[\d+\]) (?:!=|==) (?:\*?[^()]*->domain(?:\[\d+\])?|\*" + re.escape(start) + r"|" + re.escape(start) + r"\[\d+\])\)", x[1])]
                     if direct:
                         why.append(f'a row is passed over without strncasecmp on the byte-exact test {direct[0][1]} (table entries are lower case, the label need not be: the match is no longer case-insensitive)')
@@ -56,7 +63,25 @@ def is_tld_shape(tu):
             m = re.fullmatch(r'(.+)->domain', x)
             if m and y == start: row = m.group(1)
         if row is None: why.append(f'strncasecmp compares {a[0]} with {a[1]} (want <row>->domain with {start})'); continue
-        if a[2] != f'{row}->length': why.append(f'compared length is {a[2]} (want {row}->length)')
+        if a[2] != f'{row}->length':
+            # comparing over the label's own length is a whole-label match only where the path has established that the
+            # label is exactly as long as the entry
+            lo, hi = -10 ** 9, 10 ** 9
+            for e in p.events:
+                if e[0] != 'cond': continue
+                f = _len_filter(e[1], start, end, row)
+                if f is None: continue
+                op, k = f
+                if not e[2]: op = {'<': '>=', '<=': '>', '>': '<=', '>=': '<', '==': '!=', '!=': '=='}[op]
+                if op == '==': lo, hi = max(lo, k), min(hi, k)
+                elif op == '<': hi = min(hi, k - 1)
+                elif op == '<=': hi = min(hi, k)
+                elif op == '>': lo = max(lo, k + 1)
+                elif op == '>=': lo = max(lo, k)
+            n = _label_len(a[2], start, end)
+            if n is not None and n >= 0 and (lo, hi) == (0, 0): pass
+            elif n is not None and n >= 0: why.append(f'strncasecmp compares {a[2]} bytes, the label\'s own length, on a path where the label may be shorter than the entry: a proper prefix of a listed name matches (want {row}->length, NUL included)')
+            else: why.append(f'compared length is {a[2]} (want {row}->length)')
         if not p.passed(calls[0][3], False): why.append('class returned although strncasecmp result is not tested == 0')
         if p.ret()[1] != f'{row}->type': why.append(f'returns {p.ret()[1]} (want {row}->type)')
         if row != 'tld_list' and not re.fullmatch(r"\w+@L\d+'*", row): why.append(f'search starts at {row} (want tld_list, the first row)')
@@ -74,9 +99,43 @@ def is_tld_shape(tu):
             if not st or st[-1][2] != '(tld_list + 1)': why.append(f'iteration step is {st[-1][2] if st else None} (want +1 row)')
             if p.ret() and str(p.ret()[1]).startswith('-') and not any(e[0] == 'cond' and re.fullmatch(r".+@L\d+'*->domain", e[1]) and e[2] is False for e in p.events[i:]):
                 why.append('loop does not end at the NULL-domain sentinel')
-    if not any(p.passed(f'({start} == {end})', True) and p.ret()[1] == '-EEAV_TLD_INVALID' for p in paths):
-        why.append('empty label (start == end) is not rejected first')
     return {'ok': not why, 'why': '; '.join(sorted(set(why))), 'paths': len(paths)}
+
+
+def _label_len(expr, start, end):
+    """expr == (end - start) + c  ->  c, else None"""
+    base = f'({end} - {start})'
+    if expr == base: return 0
+    m = re.fullmatch(r'\(' + re.escape(base) + r' ([+-]) (\d+)\)', expr)
+    if m: return int(m.group(2)) * (1 if m.group(1) == '+' else -1)
+    return None
+
+
+def _row_len(expr, row=None):
+    """expr == <row>->length + c  ->  c, else None"""
+    m = re.fullmatch(r"(.+)->length", expr)
+    if m and (row is None or m.group(1) == row): return 0
+    m = re.fullmatch(r"\((.+)->length ([+-]) (\d+)\)", expr)
+    if m and (row is None or m.group(1) == row): return int(m.group(3)) * (1 if m.group(2) == '+' else -1)
+    return None
+
+
+def _len_filter(cond, start, end, row=None):
+    """a comparison between the label's length and a table entry's length field (strlen + 1), as (op, k) meaning
+    (len - strlen(entry)) op k ; None if the condition is not of that kind"""
+    m = re.fullmatch(r'\((.+) (<|<=|>|>=|==|!=) (.+)\)', cond)
+    if not m: return None
+    L, op, R = m.group(1), m.group(2), m.group(3)
+    a, b = _label_len(L, start, end), _row_len(R, row)
+    if a is not None and b is not None: return op, b - a + 1          # len + a op S + 1 + b
+    a, b = _label_len(R, start, end), _row_len(L, row)
+    if a is not None and b is not None:
+        return {'<': '>', '<=': '>=', '>': '<', '>=': '<=', '==': '==', '!=': '!='}[op], b - a + 1
+    return None
+
+
+def _holds(d, op, k):
+    return {'<': d < k, '<=': d <= k, '>': d > k, '>=': d >= k, '==': d == k, '!=': d != k}[op]
 
 
 def _itervar(p):
